@@ -17,7 +17,10 @@
 
 use crate::{
 	trait_bounds,
-	utils::{codec_crate_path, custom_mel_trait_bound, has_dumb_trait_bound, should_skip},
+	utils::{
+		codec_crate_path, custom_mel_trait_bound, get_compact_type, get_encoded_as_type,
+		has_dumb_trait_bound, should_skip,
+	},
 };
 use quote::{quote, quote_spanned};
 use syn::{parse_quote, spanned::Spanned, Data, DeriveInput, Field, Fields};
@@ -44,7 +47,7 @@ pub fn derive_max_encoded_len(input: proc_macro::TokenStream) -> proc_macro::Tok
 		None,
 		has_dumb_trait_bound(&input.attrs),
 		&crate_path,
-		false,
+		true,
 	) {
 		return e.to_compile_error().into();
 	}
@@ -84,10 +87,16 @@ fn fields_length_expr(fields: &Fields, crate_path: &syn::Path) -> proc_macro2::T
 	// `max_encoded_len` call. This way, if one field's type doesn't implement
 	// `MaxEncodedLen`, the compiler's error message will underline which field
 	// caused the issue.
+	//
+	// A field is encoded as its compact / `encoded_as` type when it carries the corresponding
+	// attribute, so that is the type whose maximum length counts.
 	let expansion = fields_iter.map(|field| {
 		let ty = &field.ty;
+		let encoded_ty = get_compact_type(field, crate_path)
+			.or_else(|| get_encoded_as_type(field))
+			.unwrap_or_else(|| quote! { #ty });
 		quote_spanned! {
-			ty.span() => .saturating_add(<#ty as #crate_path::MaxEncodedLen>::max_encoded_len())
+			ty.span() => .saturating_add(<#encoded_ty as #crate_path::MaxEncodedLen>::max_encoded_len())
 		}
 	});
 	quote! {
